@@ -97,6 +97,21 @@ theorem static_stack_eq_eager_stack (base : CgRe.Cfg K) (pa pr : Bool) (hmax : 0
   exact static_ncg_eq_eager c f nan hessp ip gradnorm cgnorm (cgOracle base pa pr ip nrm hessp) e he he0 hold hf0
     (fun h => absurd h habs) x0
 
+/-- **Full-stack equivalence with the minimiser's default inner configuration** (neither `resnorm` nor `absdelta` pinned by
+    `cg_kwargs`), also for `absdelta = None`: for a symmetric bilinear `ip ≥ 0` and a linear self-adjoint Hessian the C15
+    conjugate gradient answers alike for `absdelta=None` and `absdelta=0.` (`cgOracle_abs0`: in exact arithmetic the energy
+    difference of a CG step is never negative), which discharges the oracle hypothesis of `static_ncg_eq_eager`. -/
+theorem static_stack_eq_eager_stack_default (base : CgRe.Cfg K) (hmax : 0 < CgRe.maxiterEff base)
+    (hip : SymmBilin ip) (hnn : ∀ a, 0 ≤ ip a a)
+    (hm : ∀ pos, Linear (K := K) (hessp pos)) (hsa : ∀ pos, CgRe.SelfAdj ip (hessp pos))
+    (e : K) (he : c.erf = some e) (he0 : e ≠ 0) (hold : c.oldFval ≠ some 0) (hf0 : ∀ x, (f x).1 ≠ 0) (x0 : V) :
+    match ncgEager c f nan hessp ip gradnorm cgnorm (cgOracle base false false ip nrm hessp) x0 with
+    | .ok r => ncgStatic c f nan hessp ip gradnorm cgnorm (cgOracleStatic base false false ip nrm hessp) x0 = some r
+    | .error _ => ncgStatic c f nan hessp ip gradnorm cgnorm (cgOracleStatic base false false ip nrm hessp) x0 = none := by
+  rw [cgOracleStatic_eq base false false ip nrm hessp hmax]
+  exact static_ncg_eq_eager c f nan hessp ip gradnorm cgnorm (cgOracle base false false ip nrm hessp) e he he0 hold hf0
+    (fun _ m p g => cgOracle_abs0 base ip nrm hessp hip hnn hm hsa m p g) x0
+
 /-- the excluded region of `static_ncg_eq_eager` is real: after an iterate with energy exactly `0` the eager code
     (truthiness test) falls back to `absdelta/100` while the compiled code uses `energy_reduction_factor·(0 − energy)` -/
 theorem zero_energy_args_differ :
